@@ -82,13 +82,13 @@ Definition pc_id (p : pc) : option N :=
   | _ => None
   end.
 
-Definition wk_inv (s : st) (k : key) : Prop :=
-  match wpc s with
+Definition wk_inv (p : pc) (F : option N) (M : option ment) : Prop :=
+  match p with
   | WIdle => True
-  | WUnban _ => get k (fblobs s) = None
-  | WFail1 _ | WFail2 _ => get k (fblobs s) = None -> get k (mem s) = None
+  | WUnban _ => F = None
+  | WFail1 _ | WFail2 _ => F = None -> M = None
   | p => match pc_id p with
-         | Some id => get k (fblobs s) = Some id \/ (get k (fblobs s) = None /\ get k (mem s) = None)
+         | Some id => F = Some id \/ (F = None /\ M = None)
          | None => True
          end
   end.
@@ -99,7 +99,7 @@ Definition gen_inv (s : st) (k : key) : Prop :=
      exists m, get k (mem s) = Some m /\ m_banned m = true /\ m_complete m = true) /\
   (forall m, get k (mem s) = Some m -> m_complete m = false ->
      get k (disk s) = None /\ get k (fblobs s) = None /\ won (wpc s) k = false) /\
-  (won (wpc s) k = true -> wk_inv s k).
+  (won (wpc s) k = true -> wk_inv (wpc s) (get k (fblobs s)) (get k (mem s))).
 
 (* the worker's own heap object *)
 Definition w_inv (s : st) : Prop :=
